@@ -25,7 +25,7 @@ INFO = {
     "the identifier regex.  Keyword recognisers run the regex model on the pattern the real code generated.  Programs in "
     "the classes listed as known findings (by call site) are not explored symbolically; a representative of each class is "
     "replayed natively.",
-    "bounds": {"quick": {"texts": 20, "N": "min(4, len(text)+2)"}, "thorough": {"texts": "+ all 1-2 character texts over {a 1 _ + * ( ) [ ] | $ ^ - \" ' \\}", "N": 4, "ignore_case": "both"}},
+    "bounds": {"quick": {"texts": 20, "N": "min(4, len(text)+2)", "ignore_case": "text 'if' declared, with and without KEYWORD, N=3 over {i I f F x space}"}, "thorough": {"texts": "+ all 1-2 character texts over {a 1 _ + * ( ) [ ] | $ ^ - \" ' \\}", "N": 4, "ignore_case": "both"}},
     "outside": "texts containing layout characters (their boundaries depend on layout); inputs longer than N; non-ASCII input",
     "assumptions": ["get_context stubbed; realize-atomic marks", "regex model for ID and the generated keyword patterns (validated against re at build time)"],
 }
@@ -106,6 +106,11 @@ def cases(tier, seed):
                 n_ = min(N, len(text) + 2)  # room for one character before and after the text
                 out.append({"name": "%r|%s|kw=%s|N=%d" % (text, form, kw, n_), "params": {"text": text, "form": form, "kw": kw, "N": n_, "icase": False},
                             "budget_s": 1500})
+    if tier == "quick":
+        # ignore_case with and without KEYWORD on a small stated alphabet
+        for kw in (None, r"\w+"):
+            out.append({"name": "'if'|declared|kw=%s|icase" % kw, "params": {"text": "if", "form": "declared", "kw": kw, "N": 3, "icase": True,
+                                                                            "alphabet": "iIfF x"}, "budget_s": 1500})
     if tier != "quick":
         for text in ["ab", "if", "A+", "a1"]:
             for kw in (None, r"\w+"):
